@@ -205,10 +205,16 @@ class Fresh(str):
     __slots__ = ()
 
 
+VETO = [None]             # optional rule (kind, field, idx, args, tag) -> bool: the callback raises if it says so
+                          # (callbacks whose verdict depends on their arguments / the instance's state; C12 only)
+
+
 def _event(kind, field, idx, args, tag=""):
     TRACE.append({"id": {"kind": tag + kind, "field": field, "idx": idx}, "args": [_canon(a) for a in args]})
     if FAULT[0] == (kind, field, idx):
         raise common.UserError(f"{kind}.{field}.{idx}")
+    if VETO[0] is not None and VETO[0](kind, field, idx, args, tag):
+        raise common.UserError(f"veto:{kind}.{field}.{idx}")
 
 
 class EqCallback:
